@@ -484,7 +484,12 @@ class Builtins:
             x = I.wrap_elem(s, s.th.Idx(s.t, L - 1))
             I.st.heap[ref.loc] = HList(s.with_term(s.th.Take(s.t, L - 1)), c.kind)
             return x
-        raise Unsupported('pop(%r)' % idx, node)
+        # pop(i) with a symbolic (or other constant) index, non-negative: element i, the rest keeps its order
+        i = I.as_int(args[1], node)
+        I.require(z3.And(0 <= i, i < L), 'pop-index', node, exc='IndexError')
+        x = I.wrap_elem(s, s.th.Idx(s.t, i))
+        I.st.heap[ref.loc] = HList(s.with_term(s.th.App(s.th.Take(s.t, i), s.th.Drop(s.t, i + 1))), c.kind)
+        return x
 
     def bi_list__insert(self, I, args, kw, node):
         ref, idx, v = args
@@ -657,7 +662,9 @@ class Builtins:
         if len(args) >= 2:
             sep = I.unwrap(args[1], node)
             f = self.ctx.uf('str_split', S.sort, S.sort, T.SeqS.sort)
-            return I.alloc(HList(VSeq(f(s.t, sep.t), 'list', T.SeqS, ekind='str'), 'list'))
+            r = f(s.t, sep.t)
+            I.assume(T.SeqS.Len(r) >= 1)        # str.split(sep) never returns an empty list
+            return I.alloc(HList(VSeq(r, 'list', T.SeqS, ekind='str'), 'list'))
         raise Unsupported('split()', node)
 
     def bi_str__replace(self, I, args, kw, node):
